@@ -200,6 +200,31 @@ ShiftSets(k) ==
       \cup {{p[1], p[2]} : p \in NF}
       \cup {{f} : f \in Repeated(k) \cap FreeText(k)}
 
+(***************************************************************************)
+(* Value classes.  Besides "a second distinct value" some fields have      *)
+(* classes of values that an encoder may wrongly identify:                 *)
+(*  TextFields(k)    strings of a claim: a pair differing ONLY in letter   *)
+(*                   case ("case") and a pair differing ONLY by leading /  *)
+(*                   trailing whitespace ("space") are different claims    *)
+(*                   (a mixed-case or padded bech32 receiver is            *)
+(*                   undecodable -> community pool) and must not be pooled;*)
+(*  Bytes32Fields(k) byte strings delivered left-padded to 32 bytes (the   *)
+(*                   fee payer, eth_txable.go): values differing only      *)
+(*                   after byte 20 ("tail"), only in the first 12 bytes    *)
+(*                   ("head") and values shorter than 20 bytes ("short")   *)
+(*                   are delivered differently and must sign differently.  *)
+(***************************************************************************)
+TextNames == {"paloma_receiver", "ethereum_sender", "token_contract", "client_address",
+              "smart_contract_address", "compass_id", "chain_reference_id"}
+TextFields(k) == IF k \in KindsC11 THEN Required(k) \cap TextNames ELSE {}
+Bytes32Fields(k) ==
+  CASE k = "SubmitLogicCall"         -> {"msg.submitLogicCall.senderAddress"}
+    [] k = "UploadUserSmartContract" -> {"msg.uploadUserSmartContract.senderAddress"}
+    [] OTHER -> {}
+TextModes  == {"case", "space"}
+BytesModes == {"tail", "head", "short"}
+ClassModes == TextModes \cup BytesModes
+
 -----------------------------------------------------------------------------
 (* Obligations *)
 SubstSets(k) == {F \in SUBSET Required(k) : F # {} /\ Cardinality(F) <= 2} \cup ({Required(k)} \ {{}})
@@ -209,6 +234,8 @@ CrossPairs == {P \in SUBSET KindsC04 : Cardinality(P) = 2}
 OblOf(f) ==
   UNION {{[kind |-> k, fields |-> F, mode |-> "subst"] : F \in SubstSets(k)} : k \in KindsOf(f)}
   \cup UNION {{[kind |-> k, fields |-> F, mode |-> "shift"] : F \in ShiftSets(k)} : k \in KindsOf(f)}
+  \cup UNION {{[kind |-> k, fields |-> {x}, mode |-> m] : x \in TextFields(k), m \in TextModes} : k \in KindsOf(f)}
+  \cup UNION {{[kind |-> k, fields |-> {x}, mode |-> m] : x \in Bytes32Fields(k), m \in BytesModes} : k \in KindsOf(f)}
   \cup (IF f = "C04" THEN {[kind |-> "ProofType", fields |-> P, mode |-> "cross"] : P \in CrossPairs} ELSE {})
 
 Obl == UNION {OblOf(f) : f \in Families}
@@ -223,7 +250,8 @@ NoObl == [kind |-> "-", fields |-> {}, mode |-> "none"]
 (*  shift: the fields are covered and the encoding delimits them           *)
 (*         (length prefix / ABI / escaping): in the model every encoding   *)
 (*         is delimited;                                                   *)
-(*  cross: the evidence identity carries the proof type.                   *)
+(*  cross: the evidence identity carries the proof type;                   *)
+(*  case / space / tail / head / short: the field is covered raw.          *)
 (***************************************************************************)
 Delimited(k) == TRUE
 TypeTagged   == TRUE
@@ -231,6 +259,7 @@ Binds(o) ==
   CASE o.mode = "subst" -> o.fields \cap Bound(o.kind) # {}
     [] o.mode = "shift" -> o.fields \subseteq Bound(o.kind) /\ Delimited(o.kind)
     [] o.mode = "cross" -> TypeTagged
+    [] o.mode \in ClassModes -> o.fields \subseteq Bound(o.kind)      \* the digest covers the raw value, unnormalised and in full
     [] OTHER -> TRUE
 
 -----------------------------------------------------------------------------
@@ -255,13 +284,15 @@ TableOK ==
     /\ Required(k) \cap Excluded(k) = {}
     /\ \A p \in Adjacent(k) : p[1] \in Fields(k) /\ p[2] \in Fields(k)
     /\ \A S \in ShiftSets(k) : S \subseteq Required(k)
+    /\ TextFields(k) \subseteq Required(k) /\ Bytes32Fields(k) \subseteq Required(k)
+    /\ (k \in KindsC11 => FreeText(k) \subseteq TextFields(k))
     /\ Required(k) # {}
 
 \* C11 quantifies over every field other than voter identity and tx metadata
 C11AllFields == \A k \in KindsC11 : Required(k) = Fields(k) \ Excluded(k)
 
 \* every required field is bound, alone and in combination; every boundary is delimited
-Binding == cur.mode \in {"subst", "shift", "cross"} => Binds(cur)
+Binding == cur.mode \in {"subst", "shift", "cross"} \cup ClassModes => Binds(cur)
 AllBind == \A o \in Obl : Binds(o)
 
 TypeOK == cur = NoObl \/ cur \in Obl \/ \E f \in Families : cur = SurveyOf(f)
